@@ -64,4 +64,16 @@ def runGPOps (ar : Nat → Nat) : Pop → List GPOp → Option Pop
     | some P' => runGPOps ar P' ops
     | none => none
 
+/-- `_create_trees`: the trees are grown one after the other, each consuming draws and identities where the previous one stopped -/
+def growMany (cfg : GrowCfg) (k : Nat) : Nat → List Nat → Nat → Option (List PNode × List Nat × Nat)
+  | 0, ds, nid => some ([], ds, nid)
+  | n + 1, ds, nid =>
+    match PNode.grow cfg k ds nid with
+    | some (t, ds', nid') =>
+      match growMany cfg k n ds' nid' with
+      | some (ts, d, m) => some (t :: ts, d, m)
+      | none => none
+    | none => none
+
+
 end Opy
